@@ -63,6 +63,7 @@ type c04setup struct {
 	knames []string
 	vi, vf vxCol
 	vb     vxCol
+	vs     vxCol // concrete, pairwise different strings (one null): which string lands where is the question
 	ix     []uint32
 	nullEq bool
 	n      int
@@ -86,6 +87,15 @@ func c04make() c04setup {
 	P := s.n + 1
 	s.knames = []string{"k1", "k2"}[:len(types)]
 	for _, t := range types {
+		if vx.HasParam("kconc") && t == "enum" { // concrete enum key pattern with two nulls: more rows than keys
+			c := vxCol{typ: "enum", s: make([]string, P), null: make([]bool, P)}
+			for k := range c.s {
+				c.s[k] = []string{"b", "c", "", "", "", "a"}[k%6]
+				c.null[k] = k%6 >= 2 && k%6 <= 4
+			}
+			s.keys = append(s.keys, c)
+			continue
+		}
 		if vx.HasParam("kconc") { // concrete bool key pattern: grouping itself is not the subject
 			c := vxCol{typ: "bool", b: make([]bool, P)}
 			for k := range c.b {
@@ -98,8 +108,13 @@ func c04make() c04setup {
 	}
 	s.vi, s.vf, s.vb = vxMakeCol("int", P, 0), vxMakeCol("float", P, 0), vxMakeCol("bool", P, 0)
 	s.ix = c04index(s.n, vx.ParamStr("ix"))
-	names := append(append([]string{}, s.knames...), "vi", "vf", "vb")
-	cols := append(append([]vxCol{}, s.keys...), s.vi, s.vf, s.vb)
+	s.vs = vxCol{typ: "string", s: make([]string, P), null: make([]bool, P)}
+	for k := range s.vs.s {
+		s.vs.s[k] = "str" + string(rune('0'+k)) + strings.Repeat("x", k%3)
+		s.vs.null[k] = k == 1
+	}
+	names := append(append([]string{}, s.knames...), "vi", "vf", "vb", "vs")
+	cols := append(append([]vxCol{}, s.keys...), s.vi, s.vf, s.vb, s.vs)
 	s.f = vxFrame(names, cols, s.ix)
 	return s
 }
@@ -186,11 +201,14 @@ func c04aggregate(s c04setup, g Grouper, group []int) {
 		Aggregation{Fn: "sum", Column: "vf", As: "fsum"},
 		Aggregation{Fn: "avg", Column: "vf", As: "favg"},
 		Aggregation{Fn: "majority", Column: "vb", As: "bmaj"},
+		// user functions that hand back one of their arguments
+		Aggregation{Fn: func(xs []*string) *string { return xs[0] }, Column: "vs", As: "sfirst"},
+		Aggregation{Fn: func(xs []*string) *string { return xs[len(xs)-1] }, Column: "vs", As: "slast"},
 	)
 	vx.Check(r.Err == nil, "Aggregate: no error")
 	vx.Check(r.Len() == len(g.indices), "Aggregate: one row per group")
 	names := r.ColumnNames()
-	want := append(append([]string{}, s.knames...), "cnt", "isum", "imin", "imax", "iuser", "fsum", "favg", "bmaj")
+	want := append(append([]string{}, s.knames...), "cnt", "isum", "imin", "imax", "iuser", "fsum", "favg", "bmaj", "sfirst", "slast")
 	vx.Check(len(names) == len(want), "Aggregate: columns")
 	for k := range want {
 		vx.Check(k < len(names) && names[k] == want[k], "Aggregate: key columns then aggregates, in order")
@@ -241,6 +259,8 @@ func c04aggregate(s c04setup, g Grouper, group []int) {
 		av := fs / float64(len(ix))
 		vx.Check(vxFloatSame(favg.ItemAt(gi), av), "avg(float)")
 		vx.Check(bmaj.ItemAt(gi) == (t > fcount), "majority(bool)")
+		vx.Check(vxCellSame(r, "sfirst", s.vs, gi, int(ix[0])), "user aggregation returning its first argument")
+		vx.Check(vxCellSame(r, "slast", s.vs, gi, int(ix[len(ix)-1])), "user aggregation returning its last argument")
 	}
 }
 
